@@ -82,11 +82,22 @@ def _data(shape, lo=-4, hi=4):
 
 @st.composite
 def cases(draw):
-    kind = draw(st.sampled_from(["multi", "multi", "binary", "take", "stack", "concat", "batch", "batch"]))
+    kind = draw(st.sampled_from(["multi", "multi", "binary", "take", "stack", "concat", "batch", "batch", "refill"]))
     flavour = draw(st.sampled_from(["np", "np", "da", "ds"]))
     dtype = draw(st.sampled_from(DTYPES))
     # the integer axis / dim is given in its negative (count-from-the-end) form, which NumPy defines to mean the same axis
     c: dict = {"kind": kind, "flavour": flavour, "dtype": dtype, "neg": draw(st.integers(0, 2)) == 0}
+    if kind == "refill":
+        # the same array OBJECTS are reduced, refilled in place (a reused read buffer), and reduced again
+        c["flavour"] = "np"
+        c["ops"] = [draw(st.sampled_from(MULTI)), draw(st.sampled_from(MULTI))]
+        n = draw(st.integers(2, 4))
+        shape = draw(shapes.filter(lambda s: len(s) >= 1))  # (a 0-d operand is a NumPy scalar: nothing to refill in place)
+        c["shape"] = shape
+        c["data"] = [draw(_data(shape)) for _ in range(n)]
+        c["data2"] = [draw(_data(shape)) for _ in range(n)]
+        c["which"] = draw(st.lists(st.integers(0, n - 1), min_size=1, max_size=n, unique=True))
+        return c
     if kind == "multi":
         c["op"] = draw(st.sampled_from(MULTI))
         if c["op"] in ("min", "max") and draw(st.integers(0, 4)) == 0:
@@ -284,6 +295,17 @@ def run_case(c) -> tuple[bool, list[str]]:
             r = _differential(what + f" n={len(arrs)}", lambda: f(*arrs), lambda: npf(np.stack(raws), axis=0), approx, dims_exp)
             nt = len(arrs) >= 3 and len({tuple(d) for d in c["data"]}) >= 2
         classes.append(r)
+    elif kind == "refill":
+        arrs = [_mk(d, shape, dt, "np") for d in c["data"]]
+        f1, f2 = (getattr(backends, o) for o in c["ops"])
+        approx = any(o in ("mean", "std", "var") for o in c["ops"])
+        r = _differential(what + f" {c['ops'][0]} (first call)", lambda: f1(*arrs), lambda: getattr(np, c["ops"][0])(np.stack(arrs), axis=0), approx)
+        for i in c["which"]:
+            arrs[i][...] = _mk(c["data2"][i], shape, dt, "np")  # in place: the objects stay the same, their contents do not
+        r = _differential(what + f" {c['ops'][1]} after an in-place refill of operand(s) {c['which']}", lambda: f2(*arrs),
+                          lambda: getattr(np, c["ops"][1])(np.stack(arrs), axis=0), approx)
+        classes += [r, "refilled_in_place"]
+        nt = len(arrs) >= 2
     elif kind == "binary":
         op = c["op"]
         a = _mk(c["data"][0], shape, dt, fl)
